@@ -865,7 +865,10 @@ func (x *fatRun) exec(op fsOp) {
 			// mkdir -p may have created a prefix
 			parts := strings.Split(op.P, "/")
 			for i := range parts {
-				x.resync(strings.Join(parts[:i+1], "/"))
+				// only what this call may have created: a directory that existed before keeps its children in the model
+				if pre := strings.Join(parts[:i+1], "/"); x.m.Lookup(pre) == nil {
+					x.resync(pre)
+				}
 			}
 			return
 		}
